@@ -4,6 +4,7 @@ import MesaModel.Model.VizAltair
 import MesaModel.Model.VizInputs
 import MesaModel.Model.VizKwargs
 import MesaModel.Model.VizSize
+import MesaModel.Model.VizCtrl
 /-!
 Line-protocol driver for the Viz model (C20).  One output line per input line.
 Producer: harness/viz_common.py.
@@ -36,6 +37,17 @@ Producer: harness/viz_common.py.
                                      spec/TYPE/VALUE/LABEL (a dict with "type"; VALUE, LABEL: `-` if absent), fdict (a dict
                                      without "type"), val/VALUE
   change NAME VALUE                  the input of parameter NAME reports VALUE (after a successful `inputs`)
+
+ ctrl scenarios (the controls of SolaraViz; the model class takes `**kw`, is `running` while steps < kw["stop"])
+  scenario ctrl model|sim            reset; ModelController / SimulatorController (ABMSimulator)
+  viz R T STOP0 NAME:SPEC …          SolaraViz(Model(stop=STOP0), model_params={NAME: SPEC …}, render_interval=R, use_threads=T)
+                                     SPEC as for `inputs`; STOP0 `-`: Model()
+  step | play | reset                a click on Step / on ▶ or ❚❚ / on Reset (`disabled` if the button is)
+  render N | threads 0|1             the render-interval slider / the threads checkbox
+  change NAME VALUE                  the input of parameter NAME reports VALUE
+  loop EV …                          the play loop run to its end; EV = SLEEP[@J]: what the user does during the sleep of
+                                     this tick (SLEEP ∈ - pause reset render=N set:NAME:V) and a click on ▶ / ❚❚ during the
+                                     J-th model step of the tick; after the last EV the user clicks ❚❚ during the next sleep
 -/
 open Mesa.Viz
 
@@ -79,6 +91,8 @@ structure St where
   sig : Option (List Param) := none
   mparams : Option (List (String × Option Val)) := none
   widgets : List Widget := []
+  ctrlMode : Bool := false
+  ctrl : Option Ctrl := none
 
 def St.portrayal (st : St) : Portrayal := fun a => st.portray.lookup a
 
@@ -297,7 +311,7 @@ def upd (st : St) (r : Option Space) : St × String :=
   | none => (st, "err Invalid")
   | some sp => ({ st with space := some sp }, "ok")
 
-def stepLine (st : St) (ws : List String) : St × String :=
+def stepLine0 (st : St) (ws : List String) : St × String :=
   match ws with
   | "scenario" :: "space" :: fam :: w :: h :: extra =>
     match parseFam fam, w.toNat?, h.toNat? with
@@ -467,6 +481,81 @@ def stepLine (st : St) (ws : List String) : St × String :=
       else (st, "err noinput")
     | none => (st, "err noinput")     -- the last `inputs` was refused (or there was none): no input to change
   | _ => (st, "bad-op")
+
+/-! ### ctrl scenarios -/
+
+/-- the harness' model class: `running` turns False in the step that reaches `kw["stop"]` -/
+def stopBeh : Behaviour := fun kw k =>
+  match kw.lookup "stop" with
+  | some (some v) => match v.toNat? with
+    | some s => decide (k < s)
+    | none => true
+  | _ => true
+
+/-- `def __init__(self, **kw)` -/
+def ctrlSig : List Param := [⟨"self", .posOrKw, false⟩, ⟨"kw", .varKw, false⟩]
+
+def fmtBool (b : Bool) : String := if b then "1" else "0"
+
+def fmtCtrl (c : Ctrl) : String :=
+  s!"ok gen={c.gen} steps={c.steps} mrunning={fmtBool c.mrunning} running={fmtBool c.running} playing={fmtBool c.playing}" ++
+  s!" play={if c.running then "en" else "dis"} stepb={if c.playing || !c.running then "dis" else "en"}" ++
+  s!" render={c.render} updates={c.updates} kwargs={fmtParams c.kwargs}"
+
+def parseSleep (s : String) : Option Ev :=
+  if s = "-" then some .idle
+  else if s = "pause" then some .pause
+  else if s = "reset" then some .reset
+  else match s.splitOn "=" with
+    | ["render", n] => n.toNat?.map .render
+    | _ => match s.splitOn ":" with
+      | ["set", name, v] => if name = "" || v = "" then none else some (.set name v)
+      | _ => none
+
+def parseEv (s : String) : Option (Ev × Option Nat) :=
+  match s.splitOn "@" with
+  | [sl] => (parseSleep sl).map (·, none)
+  | [sl, j] => do
+    let ev ← parseSleep sl
+    let j ← j.toNat?
+    if j = 0 then none else pure (ev, some j)
+  | _ => none
+
+def ctrlOp (st : St) (op? : Option CtrlOp) (refused : String) : St × String :=
+  match st.ctrl, op? with
+  | some c, some op =>
+    match c.apply stopBeh op with
+    | some c' => ({ st with ctrl := some c' }, fmtCtrl c')
+    | none => (st, refused)
+  | _, _ => (st, "bad-op")
+
+def ctrlLine (st : St) (ws : List String) : St × String :=
+  match ws with
+  | "viz" :: r :: t :: stop0 :: ps =>
+    match r.toNat?, (if t = "0" then some false else if t = "1" then some true else none),
+          (if stop0 = "-" then some [] else stop0.toNat?.map fun _ => [("stop", some stop0)]), ps.mapM parseParamVal with
+    | some r, some t, some kw0, some ps =>
+      if !(ps.map (·.1)).Nodup || st.ctrl.isSome then (st, "bad-op") else
+      match Ctrl.init ctrlSig ps kw0 r t with
+      | .error (.unsupported ty) => (st, s!"err unsupported {ty}")
+      | .error (.check e) => (st, fmtCheck (.error e))
+      | .ok c => ({ st with ctrl := some c }, fmtCtrl c)
+    | _, _, _, _ => (st, "bad-op")
+  | ["step"] => ctrlOp st (some .step) "disabled"
+  | ["play"] => ctrlOp st (some .play) "disabled"
+  | ["reset"] => ctrlOp st (some .reset) "disabled"
+  | ["render", n] => ctrlOp st (n.toNat?.map .render) "bad-op"
+  | ["threads", b] => ctrlOp st (if b = "0" then some (.threads false) else if b = "1" then some (.threads true) else none) "bad-op"
+  | ["change", name, v] => ctrlOp st (if name = "" || v = "" then none else some (.change name v)) "err noinput"
+  | "loop" :: evs => ctrlOp st ((evs.mapM parseEv).map .loop) "bad-op"
+  | _ => (st, "bad-op")
+
+def stepLine (st : St) (ws : List String) : St × String :=
+  match ws with
+  | ["scenario", "ctrl", kind] =>
+    if kind = "model" || kind = "sim" then ({ ctrlMode := true }, "ok") else (st, "bad-op")
+  | "scenario" :: _ => stepLine0 st ws
+  | _ => if st.ctrlMode then ctrlLine st ws else stepLine0 st ws
 
 partial def loop (h : IO.FS.Stream) (out : IO.FS.Stream) (st : St) : IO Unit := do
   let line ← h.getLine
